@@ -460,6 +460,9 @@ def trunkVlansAllowed (f : Fam) : Except Err (List Nat) :=
 
 /-! ## the interface line itself -/
 
+/-- `IOSIntfLine.is_object_for`: `line.strip().split()[0] == "interface"` -/
+def isIntfLine (s : Str) : Bool := (wordsOf s).head? = some kInterface
+
 /-- `" ".join(self.text.split()[1:])` -/
 def intfName (s : Str) : Str := join [' '] (wordsOf s).tail
 
